@@ -26,7 +26,7 @@ EXPLANATION = (
     "container hands keys back and reports no cursor instead of raising; (8) the dict-like Frame.contents does not define __len__/__iter__ through the Mapping mixin methods that are themselves derived from them."
     " Added after seed round 3: (11) EXHAUST - an if/else on the key's command whose else-arm stands for the other command is reached only after the key was restricted to those two commands (only a `self.selectable()` test may bypass the restriction: the calling convention); (12) CommandMap.copy() gives the copy its own dict."
     " Round 4: (13) OPTCALL - get_cursor_coords / get_pref_col / move_cursor_to_coords / mouse_event are called on a child only under hasattr(child, method); (14) GridFlow: every store of a row's focus_position sets the latch the default-focus test reads; (15) an index is clamped to len-1 under `index >= len`."
-    " Round-4 triage: (16) NONE-SENTINEL - optional parts are tested with `is (not) None`, never by truthiness; (3, extended) every writer of Frame.focus_part that can store 'header' / 'footer' tests that the part exists; (17) the position ListBox.set_focus() parks in set_focus_pending is handed back to the walker only under an IndexError/KeyError handler; (18) every attribute the synthetic contents reader of Overlay / Frame reports is stored by the contents writer."
+    " Round-4 triage: (16) NONE-SENTINEL - optional parts are tested with `is (not) None`, never by truthiness; (3, extended) every writer of Frame.focus_part that can store 'header' / 'footer' tests that the part exists; (17) the position ListBox.set_focus() parks in set_focus_pending is handed back to the walker only under an IndexError/KeyError handler; (18) every attribute the synthetic contents reader of Overlay / Frame reports is stored by the contents writer. Round 5: (19) GridFlow copies the display widget's focus back on every path of mouse_event / move_cursor_to_coords; (20) Frame.render gives each part the focus flag conjoined with the test that this part is the focus part, also through a temporary Filler."
 )
 NOT_DECIDED = "Validity of the index after arbitrary edit histories (C16's arithmetic), the choice of the arrow-key target, which widgets are rendered with focus=True, ListBox focus bookkeeping."
 ASSUMPTIONS = []
@@ -632,6 +632,57 @@ def rule_contents_rw(ctx: Ctx) -> RuleResult:
     return rr
 
 
+def rule_gridflow_focus_sync(ctx: Ctx) -> RuleResult:
+    """GridFlow shows its cells through a generated Pile of Columns (the display widget) and keeps its own focus in
+    `contents.focus`.  A mouse press or a cursor move changes the focus *inside the display widget* whether or not the
+    cell's widget then handles the event (Pile / Columns focus a selectable child on a button-1 press before they
+    forward it), so mouse_event() and move_cursor_to_coords() have to copy the display widget's focus back on
+    every path after delegating - not only when the event was reported as handled."""
+    p = ctx.p
+    rr = RuleResult("PASS", "C08.19", "GridFlow.mouse_event / move_cursor_to_coords copy the display widget's focus back on every path after delegating to it", floor=2)
+    cls = p.cls("urwid.widget.grid_flow.GridFlow")
+    for name in ("mouse_event", "move_cursor_to_coords"):
+        fi = cls.methods.get(name)
+        if fi is None:
+            raise AnalysisError(f"GridFlow.{name} not found")
+        cfg = cfg_of(fi)
+        deleg = nodes_where(cfg, lambda x: isinstance(x, ast.Call) and isinstance(x.func, ast.Attribute) and x.func.attr == name and isinstance(x.func.value, ast.Call) and isinstance(x.func.value.func, ast.Name) and x.func.value.func.id == "super")
+        sync = nodes_where(cfg, lambda x: isinstance(x, ast.Call) and isinstance(x.func, ast.Attribute) and x.func.attr == "_set_focus_from_display_widget")
+        if not deleg:
+            raise AnalysisError(f"GridFlow.{name}: the super().{name}() call was not found")
+        ok = bool(sync) and all(cfg.must_pass(d, sync, ends=[cfg.exit], labels=("n", "T", "F")) for d in deleg)
+        rr.inst(f"GridFlow.{name}", True, {"entry_point": name, "sync_calls": len(sync), "on_every_path": ok})
+        if not ok:
+            rr.add(finding("PASS", fi, deleg[0].stmt, f"after `{norm(deleg[0].stmt, 60)}` a path reaches the end of {name}() without _set_focus_from_display_widget(): a press on a selectable cell whose widget does not consume the event moves the focus inside the display widget only - keys and the focused rendering then go to the clicked cell while focus / focus_position / get_focus_path() still name the old one", construct=f"GridFlow.{name}: focus not copied back on every path"))
+    return rr
+
+
+def rule_frame_focus_arg(ctx: Ctx) -> RuleResult:
+    """'only the focus path is rendered with focus': Frame.render() draws each of its parts possibly in two ways (as it
+    is, or - when it has to be cut - through a temporary Filler).  Every one of these render() calls gets as focus
+    flag the frame's own flag *and* the test that this very part is the focus part."""
+    p = ctx.p
+    rr = RuleResult("SIB", "C08.20", "every part Frame.render() draws is given `focus and self.focus_part == <that part>` (also through the temporary Filler)", floor=5)
+    fi = p.func("urwid.widget.frame.Frame.render")
+    fprm = fi.params[2]
+    parts = ("header", "body", "footer")
+    for c in fi.own_nodes():
+        if not (isinstance(c, ast.Call) and isinstance(c.func, ast.Attribute) and c.func.attr == "render"):
+            continue
+        recv = ast.unparse(c.func.value)
+        part = next((x for x in parts if f"{fi.self_name}.{x}" in recv or f"{fi.self_name}._{x}" in recv), None)
+        if part is None:
+            continue
+        farg = c.args[1] if len(c.args) > 1 else next((k.value for k in c.keywords if k.arg == "focus"), None)
+        conj = list(farg.values) if isinstance(farg, ast.BoolOp) and isinstance(farg.op, ast.And) else ([farg] if farg is not None else [])
+        has_flag = any(isinstance(x, ast.Name) and x.id == fprm for x in conj)
+        has_part = any(isinstance(x, ast.Compare) and len(x.ops) == 1 and isinstance(x.ops[0], ast.Eq) and "focus_part" in ast.unparse(x) and any(isinstance(k, ast.Constant) and k.value == part for k in ast.walk(x)) for x in conj)
+        rr.inst(f"{part}: {norm(c, 50)}", True, {"part": part, "call": norm(c, 90), "focus_argument": ast.unparse(farg) if farg is not None else None})
+        if not (has_flag and has_part):
+            rr.add(finding("SIB", fi, c, f"`{norm(c, 80)}` draws the {part} with focus flag `{ast.unparse(farg) if farg is not None else 'False'}` instead of `{fprm} and self.focus_part == '{part}'`: when another part has the focus the {part} (and its own focus child) is still rendered as focused - off the focus path", construct=f"{part} rendered with focus flag {ast.unparse(farg) if farg is not None else 'missing'}"))
+    return rr
+
+
 def run(ctx: Ctx):
     p = ctx.p
     from ..rules import optcall, sentinel
@@ -660,6 +711,8 @@ def run(ctx: Ctx):
         sentinel.run_sentinel(p, "C08.16", ("urwid.widget",), floor=10),
         rule_stale_position(ctx),
         rule_contents_rw(ctx),
+        rule_gridflow_focus_sync(ctx),
+        rule_frame_focus_arg(ctx),
         optcall.run_optcall(p, "C08.13", ("urwid.widget",), floor=35),
     ]
 
@@ -669,6 +722,8 @@ _C = "urwid/widget/columns.py"
 _G = "urwid/widget/grid_flow.py"
 _F = "urwid/widget/frame.py"
 MUTANTS = [
+    Mut("frame-trimmed-header-always-focused", _F, "Frame.render", "head = Filler(self.header, VAlign.TOP).render((maxcol, htrim), focus and self.focus_part == \"header\")", "head = Filler(self.header, VAlign.TOP).render((maxcol, htrim), focus)", "SIB|widget.frame.Frame.render"),
+    Mut("gridflow-click-syncs-focus-only-when-handled", _G, "GridFlow.mouse_event", "        super().mouse_event(size, event, button, col, row, focus)\n        self._set_focus_from_display_widget()", "        if super().mouse_event(size, event, button, col, row, focus):\n            self._set_focus_from_display_widget()", "PASS|widget.grid_flow.GridFlow.mouse_event"),
     Mut("overlay-contents-drops-top-widget", "urwid/widget/overlay.py", "Overlay._contents__setitem__", "            self.top_w = value_w\n", "", "SIB|widget.overlay.Overlay._contents__setitem__"),
     Mut("overlay-contents-drops-min-height", "urwid/widget/overlay.py", "Overlay._contents__setitem__", "            self.min_height = min_height\n", "", "SIB|widget.overlay.Overlay._contents__setitem__"),
     Mut("listbox-restores-stale-position-unguarded", "urwid/widget/listbox.py", "ListBox._set_focus_complete", "        try:\n            self._body.set_focus(focus_pos)\n        except (IndexError, KeyError):\n            # the old focus position no longer exists: there is nothing to place the new focus relative to\n            focus_offset = focus_rows = 0\n            fill_above = fill_below = ()\n        else:\n", "        self._body.set_focus(focus_pos)\n        if True:\n", "EXC|widget.listbox.ListBox._set_focus_complete"),
